@@ -26,7 +26,7 @@ fi
 cmake --build $B --target llbuild libllbuild llbuildBuildSystem llbuildNinja llbuildCommands llbuildCore llbuildBasic > $B.build.log 2>&1 || { tail -50 $B.build.log; exit 2; }
 mkdir -p $B/harness
 FLAGS="-std=c++14 -fno-rtti -fno-exceptions -O1 -g -DLLBUILD_VERIF $EXTRA -I/repo/include -I/repo/lib/llvm -I/repo/products/libllbuild/include -include /repo/include/libstdc++14-workaround.h"
-LIBS="-L$B/lib -lllbuildBuildSystem -lllbuildNinja -lllbuildCommands -lllbuildCore -lllbuildBasic -lllvmSupport -lLLVMDemangle -lsqlite3 -lcurses -ldl -lpthread"
+LIBS="-L$B/lib -lllbuild -lllbuildBuildSystem -lllbuildNinja -lllbuildCommands -lllbuildCore -lllbuildBasic -lllvmSupport -lLLVMDemangle -lsqlite3 -lcurses -ldl -lpthread"
 for src in $ROOT/harness/*.cpp; do
   name=$(basename $src .cpp)
   out=$B/harness/$name
@@ -35,4 +35,8 @@ for src in $ROOT/harness/*.cpp; do
     $CXX $FLAGS $src $LIBS -o $out 2> $out.log || { cat $out.log; exit 2; }
   fi
 done
+if [ $V = hooks ]; then
+  so=$B/harness/killshim.so
+  if [ ! -f $so ] || [ $ROOT/harness/killshim.c -nt $so ]; then gcc -O1 -shared -fPIC -o $so $ROOT/harness/killshim.c -ldl || exit 2; fi
+fi
 echo "built $V"
